@@ -297,6 +297,18 @@ def _e_div(a, b):
     return a / b
 
 
+def _e_recip(a):
+    """numpy's reciprocal: 1/x for floats; for integer dtypes the integer quotient 1 // x truncated toward zero
+    (1 -> 1, -1 -> -1, |x| > 1 -> 0)."""
+    if isinstance(a, SInt):
+        return SInt(z3.If(a.t == 1, z3.IntVal(1), z3.If(a.t == -1, z3.IntVal(-1), z3.IntVal(0))))
+    if isinstance(a, (int, np.integer)) and not isinstance(a, (bool, np.bool_)):
+        if a == 0:
+            raise Abort("cut: integer reciprocal of zero")
+        return int(1 / a)
+    return _e_div(1.0, a)
+
+
 def _e_floordiv(a, b):
     if isinstance(a, (SInt, int, np.integer)) and isinstance(b, (SInt, int, np.integer)):
         if not is_sym(b) and b == 0:
@@ -385,7 +397,7 @@ _UF = {
     np.sqrt: _e_sqrt,
     np.cbrt: _e_cbrt,
     np.square: lambda a: a * a,
-    np.reciprocal: lambda a: _e_div(1.0, a),
+    np.reciprocal: lambda a: _e_recip(a),
     np.log10: _e_log10,
     np.maximum: _e_max,
     np.minimum: _e_min,
